@@ -6,6 +6,7 @@ import (
 	"errors"
 	"fmt"
 	"io"
+	"time"
 
 	"github.com/gorilla/websocket"
 	"pgregory.net/rapid"
@@ -576,6 +577,9 @@ type HistCase struct {
 	V      Cell    `json:"violation"`
 	Chunks []int   `json:"chunks,omitempty"`
 	Reads  []RStep `json:"reads,omitempty"`
+	// StaleWriteDeadline: the application's own write deadline has long
+	// passed; the automatic 1002 close is not subject to it.
+	StaleWriteDeadline bool `json:"stale_write_deadline,omitempty"`
 }
 
 func genViolation(t *rapid.T, inside, server, comp bool) Cell {
@@ -679,6 +683,7 @@ func genHistCase(t *rapid.T) HistCase {
 			c.Reads[i] = RStep{Op: "readmessage", Abandon: -1}
 		}
 	}
+	c.StaleWriteDeadline = rapid.IntRange(0, 3).Draw(t, "stale_wdl") == 0
 	return c
 }
 
@@ -747,6 +752,10 @@ func checkC04Hist(c HistCase, o *Obs) error {
 	}
 	tr.SetInput(wire, c.Chunks)
 	h := &handlerLog{failAt: -1}
+	if c.StaleWriteDeadline {
+		conn.SetWriteDeadline(time.Now().Add(-time.Hour))
+		o.Class("stale_write_deadline")
+	}
 	h.install(conn)
 	lens := make([]int, len(model.Msgs))
 	for i, m := range model.Msgs {
